@@ -66,6 +66,10 @@ FACTS = [
     ("keyReadResponseBodySites", ["proxy_agent/src/key_keeper/key.rs"], r"read_response_body\s*\(", "count", 1, ["C12"]),
     ("keeperRestSaturating", ["proxy_agent/src/key_keeper.rs"], r"let\s+continue_sleep\s*=\s*\w+\.as_millis\(\)\s*\.saturating_sub\(\s*\w+\s*\)", "count", 1, ["C13"]),
     ("keeperRestPlainSub", ["proxy_agent/src/key_keeper.rs"], r"let\s+continue_sleep\s*=\s*\w+\.as_millis\(\)\s*-\s*\w+", "count", 0, ["C13"]),
+    ("stateKeyReadStatusFile", "proxy_agent_extension/src/constants.rs", r'pub const STATE_KEY_READ_PROXY_AGENT_STATUS_FILE\s*:\s*&str\s*=\s*"([^"]*)"\s*;', "str", "ReadProxyAgentStatusFile", ["C20"]),
+    ("stateKeyFileVersion", "proxy_agent_extension/src/constants.rs", r'pub const STATE_KEY_FILE_VERSION\s*:\s*&str\s*=\s*"([^"]*)"\s*;', "str", "FileVersion", ["C20"]),
+    ("stateKeyConstants", ["proxy_agent_extension/src/constants.rs"], r"pub const STATE_KEY_\w+\s*:", "count", 2, ["C20"]),
+    ("serviceStateCreations", ["proxy_agent_extension/src/service_main.rs"], r"ServiceState::(?:default|new)\(\)", "count", 1, ["C20"]),
     ("keyDirMode", "proxy_agent/src/acl/linux_acl.rs", r"fs::Permissions::from_mode\(\s*0o([0-7]+)\s*\)", "oct", 0o700, ["C12"]),
     ("keyStructDerivesDebug", ["proxy_agent/src/key_keeper/key.rs"],
      r"#\[derive\([^\]]*Debug[^\]]*\)\]\s*(?:#\[[^\]]*\]\s*)*pub struct Key\s*\{", "count", 0, ["C12"]),
